@@ -84,6 +84,10 @@ def run(chk):
         chk.saw(NUM, "reorient_points")
         a0, b0 = P.name(rv.param_names[0]), P.name(rv.param_names[1])
         R = P.atom(("call", P.name("kabsch_rotation_matrix"), (a0, b0)))
+        rr = [e for e in rv.events if e.kind == "raise"]
+        chk.ob("R18.2", NUM, "reorient_points", "the Kabsch method is the one that is carried out: only another method name is refused", all(
+            e.guards and (e.guards[-1][0].as_atom() or ("",))[0] == "eq" and "'kabsch'" in e.guards[-1][0].key() and not e.guards[-1][1] for e in rr),
+            fingerprint="method-test", found=[f"{'' if e.guards[-1][1] else 'not '}{e.guards[-1][0]}" for e in rr if e.guards])
         chk.ob("R18.2", NUM, "reorient_points", "points are rotated by right multiplication A . R with R = kabsch(A, B)",
                rv.returns[-1].value == matmul(a0, R), expected=str(matmul(a0, R)), found=str(rv.returns[-1].value))
     if chk.want("R18.3"):
@@ -105,8 +109,11 @@ def run(chk):
                 ap = aprime.as_atom()
                 rp = num.ev("reorient_points")
                 word = rp.returns[-1].value.subs({P.name(rp.param_names[0]).as_atom(): a0, P.name(rp.param_names[1]).as_atom(): b0})
-                ok = ok and ap is not None and ap[0] == "ite" and ap[3].key() == a0.key() and \
-                    ("reorient_points(" in ap[2].key() or ap[2].key() == word.key())
+                # ... called with (A, B) in that order: the first set is the one that is rotated, onto the second
+                ca_ = ap[2].as_atom() if ap is not None and ap[0] == "ite" else None
+                called = bool(ca_ and ca_[0] == "call" and call_name(ca_) == "reorient_points" and len(ca_[2]) >= 2 and ca_[2][0].key() == a0.key()
+                              and ca_[2][1].key() == b0.key())
+                ok = ok and ap is not None and ap[0] == "ite" and ap[3].key() == a0.key() and (called or ap[2].key() == word.key())
         chk.ob("R18.3", NUM, "rmsd_points", "RMSD = sqrt(<d, d> / N) with d = B - (aligned A)", ok, found=str(ret)[:200])
         # every exit reports that deviation: a shortcut return (e.g. from singular values, |A|^2 + |B|^2 - 2 sum s, which is the
         # optimum over ALL orthogonal matrices, reflections included) is a different quantity
@@ -128,11 +135,24 @@ def run(chk):
                                                                   "(T chmpy.util.num.kabsch_rotation_matrix($pos_a, $pos_b))"),
                fingerprint="dimer-rotation", found=str(defs.get("R")))
         st = {e.target.key(): e.value.key() for e in dv.events if e.kind == "store"}
+        VA, VB, RR = P.atom(("local", "v_a", 0)), P.atom(("local", "v_b", 0)), P.atom(("local", "R", 0))
+        # (the pair wherever it is stored: in a store of its own, or as one alternative of a conditional value)
+        tr = []
+        for e in dv.events:
+            if e.kind == "store" and e.target.key() == "self.transform_ab":
+                if seq_items(e.value) is not None:
+                    tr.append(e.value)
+                else:
+                    tr.extend(P.atom(a) for a in find_atoms(e.value, lambda a: a[0] == "tuple" and len(a[1]) == 2))
         chk.ob("R18.3", DM, "Dimer.calculate_transform", "transform_ab = (R, centroid_b - centroid_a)",
-               "(tuple ($R -$v_a + $v_b))" in st.get("self.transform_ab", "") or st.get("self.transform_ab") == "(tuple ($R $v_ab))" or
-               any(e.kind == "store" and e.target.key() == "self.transform_ab" and "$R" in e.value.key() and "$v_b" in e.value.key() for e in dv.events),
-               found=st.get("self.transform_ab"))
+               len(tr) >= 1 and all(len(seq_items(t)) == 2 and seq_items(t)[0] == RR and seq_items(t)[1] == VB - VA for t in tr),
+               expected="(R, v_b - v_a)", found=st.get("self.transform_ab"))
         guard = [e for e in dv.events if e.kind == "test" and "len(self.a)" in e.value.key()]
-        chk.ob("R18.3", DM, "Dimer.calculate_transform", "sets of different size are rejected before alignment", bool(guard))
+        # ... and only those: the alignment is reached with equal sizes (the size test holds as an equality on the way to it)
+        kab = [e for e in dv.events if e.kind == "call" and "kabsch_rotation_matrix" in (call_name(e.value.as_atom() or ()) or "")]
+        sized = bool(kab) and all(any(pol and (c.as_atom() or ("",))[0] == "eq" and "len(self.a)" in c.key() and "len(self.b)" in c.key() for c, pol in e.guards)
+                                  for e in kab)
+        chk.ob("R18.3", DM, "Dimer.calculate_transform", "sets of different size are rejected before alignment", bool(guard) and sized,
+               found=[f"{'' if p else 'not '}{str(c)[:60]}" for e in kab for c, p in e.guards][:3])
     chk.assume("optimality as a numerical statement (SVD) and planar / collinear degeneracy are not decided")
     chk.assume("numpy.linalg.svd returns orthogonal factors with singular values in descending order (library contract)")
